@@ -10,6 +10,9 @@ modes
   imp <triples.ndjson> <sem.ndjson> <out.ndjson> <seed> <nsem> <nvcg> <nrandom>
         (b) natural-number programs as HOL terms: imp.eval_Sem on (program, initial state) + theory.check_proof;
             imp.vcg_norm on Valid P c Q + theory.check_proof
+  hist <histvectors.ndjson> <out.ndjson> <tid_base>
+        (c) histories on ONE command object: annotate for (p1, q1), then for (p2, q2) / after replacing an invariant;
+            also applied to every 20th vector and to a fifth of the random programs in mode com
   one <event.json> <out.ndjson>     re-run the input of one recorded event (replay)
 No verdict is computed here: only projection of objects to JSON trees in the encoding of spec/C20_HoareSem.tla.
 """
@@ -495,6 +498,56 @@ def run_com(prog, pre, post, mode, tid, origin):
     return ev
 
 
+def first_while(c):
+    """the loop whose invariant SetInv of the specification replaces (leftmost, outermost)"""
+    from imperative import com
+    t = type(c)
+    if t is com.While:
+        return c
+    if t is com.Seq or t is com.Cond:
+        return first_while(c.c1) or first_while(c.c2)
+    return None
+
+
+def run_hist(prog, steps, inv2, tid, origin):
+    """History on ONE command object: for every step (pre, post):  c.pre = [pre]; c.compute_wp(post); c.get_vcs(vars);
+    before the last step the invariant of the first loop is replaced by inv2 (unless inv2 = ["true"]).
+    The event describes the object after the last step: its program, the last (pre, post), the conditions it shows;
+    `first` = the condition trees a FRESH object of the same final program gives for the last triple."""
+    vars_ = {"x": "int", "y": "int"}
+    pre, post = steps[-1]
+    ev = {"tid": tid, "kind": "com", "mode": "hist", "origin": origin, "vprog": prog, "prog": prog, "pre": pre, "post": post,
+          "steps": steps, "inv2": inv2, "key": "hist:%s" % digest([prog, steps, inv2]), "wp": UNK, "vcs": [], "first": [],
+          "ntrees": 0, "rt": prog, "rtok": "ok", "shown": ""}
+    try:
+        c = dec_com(prog)
+        same = True
+        for k, (P, Q) in enumerate(steps):
+            if k == len(steps) - 1 and inv2 != ["true"]:
+                w = first_while(c)
+                if w is not None:
+                    w.inv = dec_expr(inv2)
+            c.pre = [dec_expr(P)]
+            wp = c.compute_wp(dec_expr(Q))
+            if k < len(steps) - 1:
+                c.get_vcs(vars_)
+        vcs, ntrees, same = observe(c, vars_, cross=True)
+        final = enc_com(c)
+        ev["prog"] = final
+        ev["rt"] = final
+        ev["wp"] = enc_expr(wp)
+        ev["vcs"] = vcs
+        ev["ntrees"] = ntrees
+        ev["outcome"] = "ok" if same else "error:get_vcs"
+        f = dec_com(final)
+        f.pre = [dec_expr(pre)]
+        f.compute_wp(dec_expr(post))
+        ev["first"] = [enc_expr(t) for t in computed_vcs(f)]
+    except Exception as ex:
+        ev["outcome"] = "error:" + type(ex).__name__
+    return ev
+
+
 def self_pre(prog, post):
     """box & wp, where wp is what compute_wp returns on a fresh object (input construction only)"""
     try:
@@ -504,6 +557,19 @@ def self_pre(prog, post):
     if "?" in json.dumps(wp):
         return None
     return boxed(IBOX, wp)
+
+
+def main_hist(hist_path, out_path, tid_base):
+    from logic import basic
+    basic.load_theory("hoare")
+    tid = tid_base
+    with open(out_path, "w") as out:
+        for ln in open(hist_path):
+            if ln.strip():
+                v = json.loads(ln)
+                tid += 1
+                ev = run_hist(v["prog"], [[v["p1"], v["q1"]], [v["p2"], v["q2"]]], v["inv2"], tid, "tlc-hist")
+                out.write(json.dumps(ev, separators=(",", ":")) + "\n")
 
 
 def main_com(vec_path, out_path, seed, nrandom, maxnest, twice_every, tid_base=0):
@@ -543,7 +609,11 @@ def main_com(vec_path, out_path, seed, nrandom, maxnest, twice_every, tid_base=0
                     if sp is not None and digest([v["prog"], sp, v["post"]]) not in allkeys:
                         tid += 1
                         emit(run_com(v["prog"], sp, v["post"], "fresh", tid, "tlc-selfpre"))
-                if twice_every and n % twice_every == 0:
+                if twice_every and n % (2 * twice_every) == twice_every:
+                    # the same object, then the weakest precondition of the box for the same postcondition
+                    tid += 1
+                    emit(run_hist(v["prog"], [[v["pre"], v["post"]], [IBOX, v["post"]]], ["true"], tid, "tlc"))
+                if twice_every and n % (2 * twice_every) == 0:
                     tid += 1
                     emit(run_com(v["prog"], v["pre"], v["post"], "twice", tid, "tlc"))
         g = Gen(rnd)
@@ -559,6 +629,13 @@ def main_com(vec_path, out_path, seed, nrandom, maxnest, twice_every, tid_base=0
                 post = g.assertion()
             tid += 1
             emit(run_com(prog, pre, post, "twice" if i % 10 == 9 else "fresh", tid, "random"))
+            if i % 10 in (4, 7):
+                # a history on one object: another (often weaker) precondition, sometimes another postcondition / invariant
+                pre2 = IBOX if rnd.random() < 0.5 else boxed(IBOX, g.likely_inv())
+                post2 = post if rnd.random() < 0.7 else g.assertion()
+                inv2 = boxed(IBOX, g.likely_inv()) if rnd.random() < 0.2 else ["true"]
+                tid += 1
+                emit(run_hist(prog, [[pre, post], [pre2, post2]], inv2, tid, "random"))
             if i % 2 == 0 or i % 5 == 3:
                 sp = self_pre(prog, post)
                 if sp is not None:
@@ -845,7 +922,9 @@ def main_one(ev_path, out_path):
     from logic import basic
     basic.load_theory("hoare")
     e = json.load(open(ev_path))
-    if e["kind"] == "com":
+    if e["kind"] == "com" and e.get("mode") == "hist":
+        ev = run_hist(e["vprog"], e["steps"], e["inv2"], e["tid"], e.get("origin", "replay"))
+    elif e["kind"] == "com":
         ev = run_com(e["prog"], e["pre"], e["post"], e["mode"], e["tid"], e.get("origin", "replay"))
     elif e["kind"] == "sem":
         sys.setrecursionlimit(3000)
@@ -862,6 +941,8 @@ if __name__ == "__main__":
     if mode == "com":
         main_com(sys.argv[2], sys.argv[3], int(sys.argv[4]), int(sys.argv[5]), int(sys.argv[6]), int(sys.argv[7]),
                  int(sys.argv[8]) if len(sys.argv) > 8 else 0)
+    elif mode == "hist":
+        main_hist(sys.argv[2], sys.argv[3], int(sys.argv[4]))
     elif mode == "one":
         main_one(sys.argv[2], sys.argv[3])
     elif mode == "imp":
